@@ -60,7 +60,7 @@ theorem rebuildService_grows (c : Ctl) (sv : Svc) : ResyncGrows c (rebuildServic
 theorem recompute_grows (c : Ctl) (p : Pod) : ResyncGrows c (recompute c p) := by
   rw [recompute_eq]
   generalize c.svcs.filter (fun sv => sv.ns = p.ns ∧ selMatch sv.sel p.labels) = l
-  have : ∀ (acc : Ctl × Bool), ResyncGrows c acc.1 → ResyncGrows c (l.foldl recomputeStep acc).1 := by
+  have : ∀ (acc : Ctl), ResyncGrows c acc → ResyncGrows c (l.foldl recomputeStep acc) := by
     induction l with
     | nil => intro acc h; exact h
     | cons sv t ih =>
@@ -70,11 +70,9 @@ theorem recompute_grows (c : Ctl) (p : Pod) : ResyncGrows c (recompute c p) := b
       unfold recomputeStep
       split
       · exact h
-      · split
-        · exact h
-        · exact h.trans ((rebuildService_grows _ _).trans
-            (ResyncGrows.of_eq (refreshIndex_fields _ _).2.2.2.2.2.2.2.1))
-  exact this (c, false) (ResyncGrows.refl c)
+      · exact h.trans ((rebuildService_grows _ _).trans
+          (ResyncGrows.of_eq (refreshIndex_fields _ _).2.2.2.2.2.2.2.1))
+  exact this c (ResyncGrows.refl c)
 
 theorem sliceUpsert_grows (c : Ctl) (sl : Slice) : ResyncGrows c (sliceUpsert c none sl) := by
   intro a k h
@@ -157,6 +155,7 @@ theorem podEvent_keeps (c : Ctl) (old : Option Pod) (p : Pod) (k : PodEvKind) (a
   have hdel : ∀ (d : Ctl) ip key, (deleteIP d ip key).1.resync = d.resync := by
     intro d ip key
     unfold deleteIP
+    simp only []
     split <;> rfl
   have hadd : ∀ (d : Ctl) ip b, a ≠ ip → setContains d.resync a k' = true →
       setContains (addPod d p ip b).1.resync a k' = true := by
@@ -229,6 +228,7 @@ theorem podEvent_del_resync (c : Ctl) (old : Option Pod) (p : Pod) :
     simp only [if_true]
     refine ⟨?_, trivial⟩
     unfold deleteIP
+    simp only []
     split <;> rfl
 
 /-- a Pod event queues replays only -/
@@ -378,11 +378,8 @@ theorem step_quiet_resync (c : Ctl) (op : Op) (c' : Ctl) (hstep : stepC c op = s
       · rfl
       · simp only [List.append_nil, runEvents]
         exact serviceUpsert_resync _ _
-    · simp only [runAll, runEvents, handle]
-      split
-      · rfl
-      · simp only [List.append_nil, runEvents]
-        exact serviceUpsert_resync _ _
+    · simp only [runAll, runEvents, handle, List.append_nil]
+      exact serviceUpsert_resync _ _
   | delSvc ns name =>
     simp only [stepC] at hstep
     cases hf : findSvc c.svcs ns name with
@@ -403,13 +400,10 @@ theorem step_quiet_resync (c : Ctl) (op : Op) (c' : Ctl) (hstep : stepC c op = s
         split
         · exact reprocessNs_resync _ _
         · rfl
-    · simp only [runAll, runEvents, handle]
+    · simp only [runAll, runEvents, handle, List.append_nil]
       split
+      · exact reprocessNs_resync _ _
       · rfl
-      · simp only [List.append_nil, runEvents]
-        split
-        · exact reprocessNs_resync _ _
-        · rfl
   | delNs name =>
     simp only [stepC] at hstep
     cases hf : c.nss.find? (fun n => n.name = name) with
